@@ -158,6 +158,40 @@ func genStructured(front string) func(t *rapid.T) Case {
 	}
 }
 
+// genKnapsack: many tight rows with coefficients 1..9 over 5..9 of 8..12 variables: the watched part of a
+// constraint is recomputed again and again with weights that do not add up evenly, and conflicts, backjumps
+// and learning happen on weighted constraints (about five conflicts per instance).
+func genKnapsack(t *rapid.T) Case {
+	c := Case{Front: "pb"}
+	n := gen.Uniform(t, 8, 12, "n")
+	for i, m := 0, gen.Uniform(t, n, 2*n, "m"); i < m; i++ {
+		k := gen.Uniform(t, 5, 9, "len")
+		if k > n {
+			k = n
+		}
+		ls := gen.DistinctLits(t, n, k, "l")
+		co := make([]int, k)
+		tot := 0
+		for j := range co {
+			co[j] = gen.Uniform(t, 1, 9, "co")
+			tot += co[j]
+		}
+		d := tot * gen.Uniform(t, 25, 55, "pct") / 100
+		if d < 1 {
+			d = 1
+		}
+		if gen.Chance(t, 1, 4, "lteq") {
+			c.Constrs = append(c.Constrs, gen.PC{Kind: "lteq", Lits: ls, Coefs: co, K: tot - d})
+		} else {
+			c.Constrs = append(c.Constrs, gen.PC{Kind: "gteq", Lits: ls, Coefs: co, K: d})
+		}
+	}
+	if gen.Chance(t, 1, 3, "nbmax") {
+		c.NbMax = rapid.IntRange(2, 12).Draw(t, "limit")
+	}
+	return c
+}
+
 func seqInts(lo, hi int) []int {
 	var s []int
 	for i := lo; i <= hi; i++ {
@@ -187,6 +221,9 @@ func init() {
 		vf.Sub[Case]{Name: "pb-structured", Quick: 4000, Thorough: 50000, Gen: genStructured("pb"), Check: check, Floor: 0.5,
 			Classes: map[string]float64{"conflicts>0": 0.2},
 			Rule: "ParsePBConstrs: pigeonhole with at-most-one rows (variables renamed, constraints shuffled) dense systems of 6..14 loose-degree constraints over 6..10 variables, and long constraints (7..14 literals, degree 2..5) with unit constraints and short clauses over 10..14 variables, tiny learned-clause limit in half of the cases; " + rule},
+		vf.Sub[Case]{Name: "pb-knapsack", Quick: 8000, Thorough: 80000, Gen: genKnapsack, Check: check, Floor: 0.8,
+			Classes: map[string]float64{"conflicts>0": 0.5, "sat": 0.3, "unsat": 0.1},
+			Rule: "ParsePBConstrs: n..2n tight rows (>= with degree 25..55 % of the sum of the coefficients, or the equivalent <=) with coefficients 1..9 over 5..9 of n = 8..12 variables, tiny learned-clause limit in a third of the cases; same oracle; non-trivial as above"},
 		vf.Sub[Case]{Name: "card-structured", Quick: 4000, Thorough: 50000, Gen: genStructured("card"), Check: check, Floor: 0.5,
 			Classes: map[string]float64{"conflicts>0": 0.2},
 			Rule: "ParseCardConstrs: the same structured families; " + rule},
